@@ -51,6 +51,17 @@ CLAIMED = {
              'Proved for the code after fix ff64406 (the pinned code failed the absolute part). No axioms.',
         technique='Coq proof (digit printing/parsing lemmas by finite sweep, lia with Euclidean division); differential correspondence',
         design='6 (C17)'),
+    'C20': dict(
+        text='Coq theorems (Props/C20.v) over an executable model of DeliverSm.parse_receipt (the find(":")/find(" ") scanner on suffixes, int(), '
+             'the backtracking alternatives of strptime %y%m%d%H%M, id fallback to the receipted_message_id TLV) and encode_receipt: for every '
+             'receipt with id/stat free of spaces, counts/err 0..999, dates 1969-2068 to the minute and any text, and for ANY casing of the eight '
+             'field names, parsing the built text returns the dictionary (text up to padding; id from the TLV exactly when the text has none); '
+             'unknown name:value tokens are kept as strings under the lower-cased name; a non-receipt parses to {}. Model tied to protocol.py by '
+             'differential runs on built receipts (re-cased names, TLV present/absent, extra tokens), non-receipt esm_class values, a malformed '
+             'stream and ambiguous date strings (exception classes compared).',
+        note='Trusted: Coq kernel + vm_compute sweeps, CPython str/int/strptime semantics as modelled (sampled), ASCII field names, harness. No axioms.',
+        technique='Coq proof (scanner lemmas over list append, finite sweeps for number/date fields); differential correspondence',
+        design='6 (C20)'),
 }
 
 PENDING_REASON = 'check not built yet in this round (planned, see DESIGN.md section 6); not claimed until its proof and correspondence run exist'
